@@ -42,12 +42,6 @@ static void fill(ArenaExample& m, int depth) {
   }
 }
 
-// nothing but (possibly nested) present-but-empty singular sub-messages
-static bool only_empty_submessages(const ArenaExample& m) {
-  if (m.has_p() || m.has_s() || m.has_e() || m.has_ds() || m.rp_size() || m.rs_size() || m.rm_size() || m.re_size()) return false;
-  return !m.has_m() || only_empty_submessages(m.m());
-}
-
 int main() {
   std::string line;
   while (std::getline(std::cin, line)) {
@@ -55,7 +49,7 @@ int main() {
     std::string id, mode;
     size_t itv; int cycles; uint64_t seed;
     if (!(is >> id >> mode >> itv >> cycles >> seed)) continue;
-    bool same = true, fresh = true, fresh_leaves = true, acc_ok = true, no_growth = true, on_arena = true;
+    bool same = true, fresh = true, acc_ok = true, no_growth = true, on_arena = true;
     std::string out = id;
     {
       SwissManager manager;
@@ -78,11 +72,10 @@ int main() {
         bool expect_recreate = since >= itv;
         if (expect_recreate) { since = 0; if (first_recreate < 0) first_recreate = c; }
         if (!acc || !manager.resource().contains(acc.get())) { acc_ok = false; break; }
-        if (acc->SerializeAsString() != empty.SerializeAsString() || acc->ds() != "10086" || acc->has_s() || acc->has_m() ||
-            acc->rs_size() != 0 || acc->rm_size() != 0 || acc->rp_size() != 0 || acc->re_size() != 0) {
-          fresh = false;
-          if (!only_empty_submessages(*acc) || acc->ds() != "10086") fresh_leaves = false;
-        }
+        // equal to a freshly constructed message: no has-bit, nothing repeated, zero bytes on the wire, default string back
+        if (acc->SerializeAsString() != empty.SerializeAsString() || acc->ByteSizeLong() != 0 || acc->ds() != "10086" ||
+            acc->has_p() || acc->has_s() || acc->has_m() || acc->has_e() || acc->has_ds() || acc->rs_size() != 0 ||
+            acc->rm_size() != 0 || acc->rp_size() != 0 || acc->re_size() != 0) fresh = false;
         used_after.push_back(manager.resource().space_used());
         size_t period = itv == 0 ? 1 : itv;
         int prev = c - (int)period;
@@ -91,8 +84,7 @@ int main() {
         out += " C=" + std::to_string(used_after.back());
       }
     }
-    printf("%s | same=%d fresh=%d fresh_leaves=%d acc_ok=%d on_arena=%d no_growth=%d\n", out.c_str(), same, fresh, fresh_leaves, acc_ok, on_arena,
-           no_growth);
+    printf("%s | same=%d fresh=%d acc_ok=%d on_arena=%d no_growth=%d\n", out.c_str(), same, fresh, acc_ok, on_arena, no_growth);
     fflush(stdout);
   }
   return 0;
